@@ -299,3 +299,40 @@ def coqchk(prop_vo, timeout=1500):
 
 def extra_setup_steps():
     return []
+
+
+def differential(harness_args, driver_cmd, same=None, release=False, limit=5):
+    """Run the harness (lines `case<TAB>impl-result`), feed the cases to the model driver, compare.
+    Returns (cases, impl, model, diffs) with diffs = [(index, case, impl, model)]."""
+    rc, out = run_harness(harness_args, release=release)
+    lines = [l for l in out.split("\n") if l]
+    cases, impl = [], []
+    for l in lines:
+        c, _, r = l.partition("\t")
+        cases.append(c)
+        impl.append(r)
+    if rc != 0:
+        raise RuntimeError("harness %s failed (rc=%s): %s" % (harness_args, rc, out[-2000:]))
+    rc, mout = run_driver([driver_cmd], "\n".join(cases) + "\n")
+    model = [l for l in mout.split("\n")]
+    if model and model[-1] == "":
+        model.pop()
+    if rc != 0 or len(model) != len(cases):
+        raise RuntimeError("driver %s failed (rc=%s, %d results for %d cases): %s" % (driver_cmd, rc, len(model), len(cases), mout[-2000:]))
+    same = same or (lambda case, i, m: i == m)
+    diffs = []
+    for k, (c, i, m) in enumerate(zip(cases, impl, model)):
+        if not same(c, i, m):
+            diffs.append((k, c, i, m))
+            if len(diffs) >= limit:
+                break
+    return cases, impl, model, diffs
+
+
+def ensure_built(prop, extract=True, release=False):
+    okh, outh = build_harness(release)
+    if not okh:
+        raise RuntimeError("harness build failed:\n" + outh[-3000:])
+    okd, outd = build_driver()
+    if not okd:
+        raise RuntimeError("driver build failed:\n" + outd[-3000:])
